@@ -31,9 +31,11 @@ LEVEL = "proof"
 RULE = ("(sync) seeded random sync-only documents over the LA metamodel slice: 1-3 instructions, 1-4 sync entries per "
         "list, nesting depth <= 3, find keys on `name` drawn from strings with arbitrary characters (XML specials, "
         "quotes, whitespace runs, newlines, non-BMP, YAML-special words), optional `_type` hints, a second find key, "
-        "`set` with strings and with forward/backward promises, promise ids, entries that match base objects; "
-        "excluded-point flavours (set overrides a find key, non-discriminating finds, extend inside sync, dotted find "
-        "keys) are run and reported separately. Each document is applied twice to empty_project_52 / melody 5_2 / "
+        "`set` with strings and with forward/backward promises, promise ids, entries that match base objects, two "
+        "entries of one list selecting the same absent object, find keys on nested attributes (`parent.name`, "
+        "`type.name`, …) selecting objects of the populated models; "
+        "excluded-point flavours (set overrides a find key, non-discriminating finds, extend inside sync, HTML-normalised "
+        "find values) are run and reported separately. Each document is applied twice to empty_project_52 / melody 5_2 / "
         "writemodel (thorough: also 5_0, 6_0). (yaml) seeded random instruction streams with Promise / UUIDReference / "
         "FindBy / NewObject markers nested in dicts and lists, tricky plain strings, ints, floats, bools, None, with "
         "and without metadata blocks. (pep440) all token sequences up to length 4 (thorough 5) over "
@@ -152,22 +154,87 @@ def gen_sync_doc(rng, base: L.Base, flavour: str):
                 yield from walk(sub)
 
     allso = [x for ins in doc for _, l in ins["sync"] for x in walk(l)]
+    top = [x for ins in doc for _, l in ins["sync"] for x in l]
     if flavour in ("promise", "promise-nested"):
-        for x in allso:
+        # reference attributes set through promises; sources and targets are disjoint and targets are
+        # top-level entries, so that no document waits on itself
+        sources = [x for x in allso if L.SCHEMA[x["_cls"]][1] and rng.random() < 0.8]
+        for x in sources:
             for attr, tcls in L.SCHEMA[x["_cls"]][1].items():
-                t = [y for y in allso if y["_cls"] == tcls and y is not x]
-                if t and rng.random() < 0.8:
+                t = [y for y in top if y["_cls"] == tcls and not any(y is z for z in sources)]
+                if t:
                     y = rng.choice(t)
                     y["pid"] = y.get("pid") or f"p{y['nid']}"
                     x.setdefault("set", []).append([attr, {"v": {"p": y["pid"]}}])
-                    if flavour == "promise" and "sync" in x:
-                        del x["sync"]  # forward promise in `set` together with nested sync: separate flavour
-    if flavour == "dotted":
-        x = allso[0]
-        x["keys"].append(["parent.name", {"s": "whatever"}])
+    if flavour == "twin":
+        # two entries of one list whose find keys select the same, not yet existing object
+        for ins in doc:
+            for _, l in ins["sync"]:
+                if rng.random() < 0.8:
+                    x = rng.choice(l)
+                    i2 = next(nid)
+                    y = {"nid": i2, "nid2": i2 + 5000, "keys": copy.deepcopy(x["keys"]), "_cls": x["_cls"]}
+                    if "ty" in x and rng.random() < 0.5:
+                        y["ty"] = x["ty"]
+                    if rng.random() < 0.5:
+                        y["pid"] = f"p{i2}"
+                    l.insert(rng.randint(l.index(x) + 1, len(l)), y)
+                    allso.append(y)
     for x in allso:
         del x["_cls"]
     return doc
+
+
+def gen_dotted_doc(rng, base: L.Base):
+    """find keys on nested attributes (`parent.name`, `<reference>.name`) selecting objects of the base model:
+    every entry must match, nothing may be created"""
+    nid = itertools.count(10000)
+    doc = []
+    for r in rng.sample(["rc", "rf", "dp"], 3):
+        root = base.graph["objs"][base.root_id(r) - 1]
+        entries = []
+        for a, mem in root["lists"]:
+            if not L.SCHEMA[base.root_cls[r]][2].get(a, (None, False))[1]:
+                continue
+            cands = [b for b in mem if b in base.name_of and sum(1 for m in mem if base.name_of.get(m) == base.name_of[b]) == 1]
+            rng.shuffle(cands)
+            l = []
+            for b in cands[: rng.randint(1, 2)]:
+                l.append(dotted_entry(rng, base, nid, b, 1))
+            if l:
+                entries.append([a, l])
+        if entries:
+            doc.append({"parent": {"u": base.root_id(r)}, "sync": entries})
+    return doc
+
+
+def dotted_entry(rng, base, nid, b, depth):
+    o = base.graph["objs"][b - 1]
+    i = next(nid)
+    keys = [["name", {"s": base.name_of[b]}]]
+    if b in base.parent_name:
+        keys.append(["parent.name", {"s": base.parent_name[b]}])
+    for a, tn in base.ref_names.get(b, {}).items():
+        keys.append([f"{a}.name", {"s": tn}])
+    rng.shuffle(keys)
+    x = {"nid": i, "nid2": i + 5000, "keys": keys}
+    if rng.random() < 0.4:
+        x["ty"] = o["cls"]
+    if rng.random() < 0.4:
+        x["pid"] = f"p{i}"
+    if rng.random() < 0.3:
+        x["fb"] = True
+    sub = []
+    if depth < 3:
+        for a, mem in o["lists"]:
+            if not L.SCHEMA.get(o["cls"], ([], {}, {}))[2].get(a, (None, False))[1]:
+                continue
+            cands = [c for c in mem if c in base.name_of and sum(1 for m in mem if base.name_of.get(m) == base.name_of[c]) == 1]
+            if cands and rng.random() < 0.7:
+                sub.append([a, [dotted_entry(rng, base, nid, c, depth + 1) for c in rng.sample(cands, min(len(cands), rng.randint(1, 2)))]])
+    if sub:
+        x["sync"] = sub
+    return x
 
 
 def renumber(doc, off):
@@ -188,6 +255,13 @@ def renumber(doc, off):
     return d
 
 
+def pick(ctx, quick, thorough):
+    """budget; the widened re-run of a quick check (VERIF_WIDEN) stays within about twice the quick budget"""
+    if os.environ.get("VERIF_WIDEN") == "1":
+        return min(thorough, 2 * quick)
+    return ctx.pick(quick, thorough)
+
+
 def creates(view0, view1):
     return len(view1["objs"]) - len(view0["objs"])
 
@@ -196,13 +270,18 @@ def run_sync(ctx, out, bases, req, pending):
     rng = ctx.rng
     flav_count: dict[str, int] = {}
     excluded: dict[str, dict] = {}
-    n = ctx.pick(170, 1500)
-    FL = (["plain"] * 5 + ["promise"] * 3 + ["base"] * 2 + ["promise-nested", "override", "ambiguous", "extend", "dotted", "html-key"])
+    n = pick(ctx, 170, 1500)
+    FL = (["plain"] * 4 + ["promise"] * 3 + ["base"] * 2 + ["twin"] * 2 + ["dotted"] * 2 +
+          ["promise-nested", "override", "ambiguous", "extend", "html-key"])
     for k in range(n):
         flavour = FL[k % len(FL)] if k < 2 * len(FL) else rng.choice(FL)
         key = "empty52" if rng.random() < 0.7 else rng.choice([b for b in bases if b != "empty52"])
+        if flavour == "dotted":  # needs objects to select: the populated models
+            key = rng.choice([b for b in bases if b.startswith("melody")])
         base = bases[key]
-        doc = gen_sync_doc(rng, base, flavour)
+        doc = gen_dotted_doc(rng, base) if flavour == "dotted" else gen_sync_doc(rng, base, flavour)
+        if not doc:
+            continue
         flav_count[flavour] = flav_count.get(flavour, 0) + 1
         res = apply_twice(base, doc)
         nontriv = res["first"][0] == "ok" and res["created_first"] > 0
@@ -244,6 +323,18 @@ def apply_twice(base, doc):
 
 def judge_sync(out, base, doc, flavour, res, excluded):
     """the monitor: second application leaves the model exactly as the first left it"""
+    in_claim = flavour in ("plain", "promise", "promise-nested", "base", "twin", "dotted")
+    if res["first"][0] != "ok" and res["first"][1].get("error") != "diverge" and in_claim:
+        out.find(f"sync-first|raises:{res['first'][1]['error']}|{flavour}",
+                 f"{base.key}: first application of a valid {flavour} sync document raises {res['first'][1]}",
+                 {"kind": "sync", "model": base.key, "doc": doc, "flavour": flavour})
+        return
+    if res["first"][0] == "ok" and flavour == "dotted" and res["created_first"] != 0:
+        out.find("sync-first|creates-instead-of-finding|dotted",
+                 f"{base.key}: every entry selects an existing object through find keys on nested attributes, yet the "
+                 f"first application creates {res['created_first']} object(s)",
+                 {"kind": "sync", "model": base.key, "doc": doc, "flavour": flavour})
+        return
     if res["first"][0] != "ok":
         if res["first"][1].get("error") == "diverge":
             out.find(f"sync-first|recursion-never-ends|{'html-find-key+nested-sync' if flavour == 'html-key' else flavour}",
@@ -254,7 +345,6 @@ def judge_sync(out, base, doc, flavour, res, excluded):
     case = {"kind": "sync", "model": base.key, "doc": doc, "flavour": flavour}
     v1 = res["first"][1]
     st2, r2 = res["second"]
-    in_claim = flavour in ("plain", "promise", "promise-nested", "base")
     cls = None
     what = ""
     if st2 != "ok":
@@ -457,7 +547,7 @@ def run_yaml(ctx, out, yreq, ypending):
 
     rng = ctx.rng
     neq_classes: dict[str, int] = {}
-    for k in range(ctx.pick(400, 4000)):
+    for k in range(pick(ctx, 400, 4000)):
         instrs, meta = gen_stream(rng, decl, NewObject)
         marks = sorted(markers_in(instrs, decl, NewObject, set()))
         case = {"kind": "yaml", "instrs": to_dval(instrs, decl, NewObject)["l"],
@@ -489,7 +579,7 @@ def run_yaml(ctx, out, yreq, ypending):
                                              "instrs": canon_dval(to_dval(back, decl, NewObject))}))
     # hand-made / malformed texts: construct side, including the error branches
     texts = list(BAD_TEXTS)
-    for _ in range(ctx.pick(60, 600)):
+    for _ in range(pick(ctx, 60, 600)):
         instrs, meta = gen_stream(rng, decl, NewObject)
         t = decl.dump(instrs, metadata=meta)
         r = rng.random()
@@ -531,7 +621,7 @@ TOKENS = ["0", "1", "10", "01", ".", "a", "b", "rc", "c", "!", ".post", ".dev", 
 
 def run_meta(ctx, out, yreq, ypending):
     capellambse, decl = L.cap()
-    n = ctx.pick(4, 5)
+    n = 4 if os.environ.get("VERIF_WIDEN") == "1" else ctx.pick(4, 5)
     strs = set()
     for k in range(0, n + 1):
         for toks in itertools.product(TOKENS, repeat=k):
@@ -603,7 +693,8 @@ def run_meta(ctx, out, yreq, ypending):
 def run(ctx: Ctx) -> Outcome:
     L.cap()
     out = Outcome(rule=RULE)
-    bases = {k: L.Base(k) for k in (["empty52", "melody52", "write"] + (["melody50", "melody60"] if ctx.thorough else []))}
+    bases = {k: L.Base(k) for k in (["empty52", "melody52", "write"] +
+                                    (["melody50", "melody60"] if ctx.thorough and os.environ.get("VERIF_WIDEN") != "1" else []))}
     req, pending, yreq, ypending = [], [], [], []
     run_sync(ctx, out, bases, req, pending)
     run_yaml(ctx, out, yreq, ypending)
